@@ -248,6 +248,25 @@ class Universe:
             want = next((z for z in chain if z.hasFlags(Flags.FUEL)), None)
             if o.getAncestorWithFlags(Flags.FUEL) is not want:
                 self.fail("C01.traversal", f"after step {k}: getAncestorWithFlags(FUEL) on {o} disagrees with the parent chain", query="getAncestorWithFlags", op=st["op"])
+            # exact and inexact matches against the flag sets that occur up the chain (a naive reading
+            # of "has these flags": all of them, and - exact - no others)
+            specs = []
+            for z in chain[1:]:
+                f = getattr(z.p, "flags", None)
+                if f and f not in specs:
+                    specs.append(f)
+            specs.append(Flags.FUEL)
+            for spec in specs[:4]:
+                for exact in (False, True):
+                    def has(z):
+                        f = getattr(z.p, "flags", None)
+                        if not f:
+                            return False
+                        return f == spec if exact else (f & spec) == spec
+                    want = next((z for z in chain if has(z)), None)
+                    got = o.getAncestorWithFlags(spec, exactMatch=exact)
+                    if got is not want:
+                        self.fail("C01.traversal", f"after step {k}: getAncestorWithFlags({spec}, exactMatch={exact}) on {o} gave {got}, the parent chain gives {want}", query="getAncestorWithFlags", op=st["op"])
 
     # ---- model edits
     def m_attach(self, p, c, idx=None):
